@@ -349,8 +349,7 @@ def program(i, profile="full", depth=3, components=True, odd_names=True, annotat
 
 # Programs of the universe that run into a recorded (not repaired) defect of gotranx.  They are left out of the generated
 # slices; each defect has a deterministic witness among the KNOWN models of vt/props/c01.py and an entry in known_findings.json.
-EXCLUDED = {
-    ("std", 3, 2172): "C01|KNOWN:trig-of-conditional-boundary",
+EXCLUDED: dict = {
 }
 
 
